@@ -132,12 +132,18 @@ pub(crate) fn fn_ref<'a>(x: &'a dyn FunctionIngredient) -> FunctionIngredientRef
 /// A real one-slot memo table for the key, for the harnesses that do **not** stub the memo accessors.
 pub(crate) static mut REAL_TABLE: Option<(&'static crate::table::memo::MemoTableTypes, &'static crate::table::memo::MemoTable)> = None;
 pub(crate) fn install_real_table() {
-    let (types, memos) = crate::table::memo::verif::standalone::<Memo<CGen>>();
+    install_real_table_for::<CGen>()
+}
+pub(crate) fn install_real_table_for<C: Configuration>() {
+    let (types, memos) = crate::table::memo::verif::standalone::<Memo<C>>();
     // SAFETY: single-threaded harness
     unsafe { REAL_TABLE = Some((Box::leak(Box::new(types)), Box::leak(Box::new(memos)))) };
 }
 /// Store `m` in the real table (what `insert_memo` does, minus the deferred-free list).
 pub(crate) fn store_real(m: &'static Memo<CGen>) {
+    store_real_for::<CGen>(m)
+}
+pub(crate) fn store_real_for<C: Configuration>(m: &'static Memo<C>) {
     // SAFETY: single-threaded harness
     let (types, memos) = unsafe { REAL_TABLE }.unwrap();
     // SAFETY: `memos` was created for `types`
@@ -158,7 +164,7 @@ pub(crate) fn stub_execute_real<'db, C: Configuration>(
             None => 0,
         };
         let _ = claim_guard.drop();
-        store_real(&*(EXEC_RESULT as *const Memo<CGen>));
+        store_real_for::<C>(&*(EXEC_RESULT as *const Memo<C>));
         Some(&*(EXEC_RESULT as *const Memo<C>))
     }
 }
@@ -1077,5 +1083,108 @@ fn g_mca_3_maybe_changed_after_real_verification() {
     vcover!(calls == 1, "re-execution path reachable");
     vcover!(stored && calls == 0 && res.is_unchanged(), "verified-unchanged path reachable");
     vcover!();
+    std::mem::forget(w);
+}
+
+// ---- `fetch` tells the eviction policy about every request -----------------------------------------
+/// An eviction policy that records what `fetch` tells it (the real `Lru` is V-LRU-1..5).
+pub(crate) struct RecEvict;
+pub(crate) static mut USES: u32 = 0;
+pub(crate) static mut LAST_USED: Option<Id> = None;
+impl EvictionPolicy for RecEvict {
+    fn new(_: usize) -> Self {
+        RecEvict
+    }
+    fn record_use(&self, id: Id) {
+        // SAFETY: single-threaded harness
+        unsafe {
+            USES += 1;
+            LAST_USED = Some(id);
+        }
+    }
+    fn set_capacity(&mut self, _: usize) {}
+    fn for_each_evicted(&mut self, _: impl FnMut(Id)) {}
+}
+pub(crate) struct CGenRec;
+// SAFETY: `u32` output.
+unsafe impl Configuration for CGenRec {
+    const DEBUG_NAME: &'static str = "genrec";
+    const LOCATION: crate::ingredient::Location = crate::ingredient::Location { file: "", line: 0 };
+    const PERSIST: bool = false;
+    type DbView = HDb;
+    type SalsaStruct<'db> = GKey;
+    type Input<'db> = GKey;
+    type Output<'db> = u32;
+    type Eviction = RecEvict;
+    const CYCLE_STRATEGY: CycleRecoveryStrategy = CycleRecoveryStrategy::Panic;
+    fn values_equal<'db>(a: &u32, b: &u32) -> bool {
+        a == b
+    }
+    fn id_to_input(_: &Zalsa, key: Id) -> GKey {
+        GKey(key)
+    }
+    fn execute<'db>(_: &'db HDb, _: GKey) -> u32 {
+        unreachable!("the user function is behind the stubbed `execute`")
+    }
+    fn cycle_initial<'db>(_: &'db HDb, _: Id, _: GKey) -> u32 {
+        unreachable!()
+    }
+    fn recover_from_cycle<'db>(_: &'db HDb, _: &Cycle, _: &u32, v: u32, _: GKey) -> u32 {
+        v
+    }
+    fn serialize<S>(_: &u32, _: S) -> Result<S::Ok, S::Error>
+    where
+        S: plumbing::serde::Serializer,
+    {
+        unimplemented!()
+    }
+    fn deserialize<'de, D>(_: D) -> Result<u32, D::Error>
+    where
+        D: plumbing::serde::Deserializer<'de>,
+    {
+        unimplemented!()
+    }
+}
+
+//@ob id=G-LRU-1 kind=C props=C05 timeout=1800 fn=IngredientImpl::fetch,EvictionPolicy::record_use flags=stubs,noreplay
+//@ pre: as G-FETCH-2 for a function whose eviction policy records its calls (any id, stored memo or not, any verification verdict)
+//@ post: every request - served from the cache or by executing - reports **that key** to the eviction policy exactly once (so "least recently requested" in V-LRU is about requests, including cache hits)
+#[cfg(kani)]
+#[kani::proof]
+#[kani::unwind(4)]
+#[kani::stub(crate::sync::max_parallelism, crate::verif_support::one_core)]
+#[kani::stub(crate::function::sync::SyncTable::try_claim, crate::function::sync::verif::stub_try_claim)]
+#[kani::stub(crate::function::sync::ClaimGuard::drop_impl, crate::function::sync::ClaimGuard::verif_release)]
+#[kani::stub(crate::function::memo::MemoHeader::verify_memo, crate::function::memo::MemoHeader::verif_verify_memo)]
+#[kani::stub(crate::function::IngredientImpl::execute, stub_execute_real)]
+fn g_lru_1_every_request_is_reported() {
+    let w = world();
+    let ing = IngredientImpl::<CGenRec>::new(IngredientIndex::new(2), crate::memo_ingredient_indices::verif::singleton(0), 3);
+    install_real_table_for::<CGenRec>();
+    let cur = w.cur;
+    let id = vk::any_id();
+    let stored: bool = vk::any();
+    let (va, ca) = (vk::any_revision(), vk::any_revision());
+    vk::assume(ca <= va && va <= cur);
+    let d = vk::any_durability();
+    let mk = |v: Option<u32>, va: Revision, ca: Revision| -> &'static Memo<CGenRec> {
+        Box::leak(Box::new(Memo::<CGenRec>::new(v, va, crate::zalsa_local::verif::revs(d, ca, true, crate::zalsa_local::verif::empty_derived()))))
+    };
+    let old = mk(if vk::any() { Some(11) } else { None }, va, ca);
+    let new = mk(Some(12), cur, cur);
+    if stored {
+        store_real_for::<CGenRec>(old);
+    }
+    // SAFETY: single-threaded harness
+    unsafe { EXEC_RESULT = new as *const Memo<CGenRec> as usize };
+    let (z, l) = w.db.zalsas();
+    let _ = *ing.fetch(&w.db, z, l, id);
+    // SAFETY: single-threaded harness
+    let (uses, last, calls) = unsafe { (USES, LAST_USED, EXEC_CALLS) };
+    assert!(uses == 1 && last == Some(id));
+    vcover!(calls == 0, "cache hit is reported");
+    vcover!(calls == 1, "execution is reported");
+    vcover!();
+    std::mem::forget(ing);
     std::mem::forget(w);
 }
